@@ -12,6 +12,7 @@ import (
 	"fmt"
 	"os"
 	"path/filepath"
+	"regexp"
 	"sort"
 	"strconv"
 	"strings"
@@ -62,6 +63,28 @@ func jsonDiff(path string, x, y any) string {
 		if len(xv) != len(yv) {
 			return fmt.Sprintf("%s: length %d vs %d", path, len(xv), len(yv))
 		}
+		if len(xv) > 1 {
+			// same elements in another order?
+			sx, sy := make([]string, len(xv)), make([]string, len(yv))
+			same := true
+			for i := range xv {
+				bx, _ := json.Marshal(xv[i])
+				by, _ := json.Marshal(yv[i])
+				sx[i], sy[i] = string(bx), string(by)
+				same = same && sx[i] == sy[i]
+			}
+			if !same {
+				sort.Strings(sx)
+				sort.Strings(sy)
+				perm := true
+				for i := range sx {
+					perm = perm && sx[i] == sy[i]
+				}
+				if perm {
+					return path + ": order differs"
+				}
+			}
+		}
 		for i := range xv {
 			if d := jsonDiff(fmt.Sprintf("%s[%d]", path, i), xv[i], yv[i]); d != "" {
 				return d
@@ -82,6 +105,26 @@ func jsonDiff(path string, x, y any) string {
 		}
 		return ""
 	}
+}
+
+var reIdx = regexp.MustCompile(`\[[0-9]+\]`)
+
+// diffSig turns a jsonDiff result ("<path>: <what>") into a stable signature part: indices stripped,
+// values dropped.
+func diffSig(d string) string {
+	path, what, _ := strings.Cut(d, ": ")
+	path = reIdx.ReplaceAllString(path, "[]")
+	switch {
+	case strings.HasPrefix(what, "order differs"):
+		what = "order"
+	case strings.HasPrefix(what, "length"):
+		what = "length"
+	case strings.HasPrefix(what, "type differs"), strings.HasPrefix(what, "null vs value"):
+		what = "shape"
+	default:
+		what = "value"
+	}
+	return strings.TrimPrefix(path, ".") + "/" + what
 }
 
 func trunc(s string) string {
